@@ -593,6 +593,59 @@ pub fn run(cx: &mut Cx) {
         }
     }
 
+    // (e2) the count ladder: 2^8 and 2^16 lines of one multi-line variable, one
+    // less and one more, and 2^17 (a per-variable counter kept in a u8 / u16
+    // wraps exactly there); every line must be accumulated in input order.
+    if matches!(cx.tier, Tier::Quick | Tier::Thorough) {
+        let mut r = cx.shared_stream("count-ladder");
+        let multi: Vec<usize> = (0..NVARS).filter(|&v| VARS[v].kind == Kind::A).collect();
+        let mut li = 0u64;
+        for k in [255usize, 256, 257, 65_535, 65_536, 65_537, 131_072] {
+            for &var in &multi {
+                li += 1;
+                // every size for DESCRIPTION (required) and one other variable in turn
+                if var != os::DESCRIPTION && (li as usize + k) % multi.len() != 0 {
+                    continue;
+                }
+                if !cx.mine(li) {
+                    continue;
+                }
+                let (lines, _) = base_complete(&mut r);
+                let mut text = String::new();
+                let mut kept: Vec<Line> = vec![];
+                for l in lines.iter().filter(|l| l.var != var) {
+                    kept.push(l.clone());
+                }
+                let at = r.below(kept.len() + 1);
+                for (i, l) in kept.iter().enumerate() {
+                    if i == at {
+                        for j in 0..k {
+                            text.push_str(&format!("{}=line {j} of {k}\n", VARS[var].name));
+                        }
+                    }
+                    text.push_str(&l.render());
+                    text.push('\n');
+                }
+                if at == kept.len() {
+                    for j in 0..k {
+                        text.push_str(&format!("{}=line {j} of {k}\n", VARS[var].name));
+                    }
+                }
+                let mut want = os::fold(&kept).expect("harness bug: kept lines fold");
+                want.set(var, Val::A((0..k).map(|j| format!("line {j} of {k}")).collect()));
+                cx.set_budget(1 << 26, 1 << 34);
+                cx.check(
+                    || format!("count ladder: {k} lines of {} in one entry", VARS[var].name),
+                    |ev| {
+                        ev.count("workload/count-ladder");
+                        expect_accept(ev, &text, &want)
+                    },
+                );
+                cx.default_budget();
+            }
+        }
+    }
+
     // (f) is_completed on every subset of the required variables set through
     // the setters (exhaustive: 2^11), against the count rule and the parser.
     let full: u32 = (1 << REQUIRED.len()) - 1;
